@@ -405,9 +405,26 @@ class Interp:
 
     def run_function(self, fi: FuncInfo, args: List[Any], kwargs: Optional[Dict[str, Any]] = None,
                      self_val: Any = None) -> List[PathResult]:
+        import copy as _copy
+
         def go(it: 'Interp'):
-            return it.call_function(FuncRef(fi, self_val, self_val is not None), list(args), dict(kwargs or {}), None,
-                                    force_inline=True)
+            a = _copy.deepcopy(list(args))  # containers are mutable: every path starts from fresh inputs
+            k = _copy.deepcopy(dict(kwargs or {}))
+            return it.call_function(FuncRef(fi, self_val, self_val is not None), a, k, None, force_inline=True)
+
+        return self.run_paths(go)
+
+    def run_method(self, fi: FuncInfo, make: Callable[[], Tuple[Any, List[Any], Dict[str, Any]]],
+                   after: Optional[Callable[['Interp', Any], None]] = None) -> List[PathResult]:
+        """Run a method on a fresh receiver per path; `after(it, self_obj)` may record final state as events."""
+
+        def go(it: 'Interp'):
+            self_obj, a, k = make()
+            try:
+                return it.call_function(FuncRef(fi, self_obj, True), a, k, None, force_inline=True)
+            finally:
+                if after is not None:
+                    after(it, self_obj)
 
         return self.run_paths(go)
 
@@ -609,9 +626,14 @@ class Interp:
             return True
         types = handler_type if isinstance(handler_type, (tuple, list)) else [handler_type]
         for t in types:
-            tname = t.name if isinstance(t, Builtin) else (t.qual if isinstance(t, ClassRef) else None)
+            tname = t.name if isinstance(t, (Builtin, ModRef)) else (t.qual if isinstance(t, ClassRef) else None)
             if tname is None:
                 raise Unsupported(f'handler type {vrepr(t)}')
+            if isinstance(t, ModRef):
+                # external exception class: matches only the very same class name
+                if exc.cls == tname or exc.cls == tname.rsplit('.', 1)[-1]:
+                    return True
+                continue
             if exc.cls == '?':
                 # unknown exception class: assume it is an Exception subclass
                 if tname in ('Exception', 'BaseException'):
